@@ -1324,6 +1324,23 @@ func (a ascLocations) Less(i, j int) bool {
 	return a[i].entry.MinTime < a[j].entry.MinTime
 }
 
+// sortLocations orders the block locations of a key for a KeyCursor.  The Less methods
+// above are not a strict weak ordering (overlapping blocks compare by file, the others by
+// time, which is not transitive), so the result of sort.Sort depends on the algorithm it
+// happens to use: beyond its insertion-sort threshold a block of an older file could end
+// up behind an overlapping block of a newer file, and the block merge, which lets later
+// locations win, then returned the overwritten value.  fs.locations returns the blocks
+// file by file (oldest first) and in time order within a file; an insertion sort moves
+// a block forward only across blocks it compares less than, so two overlapping blocks
+// always keep their file order.
+func sortLocations(data sort.Interface) {
+	for i := 1; i < data.Len(); i++ {
+		for j := i; j > 0 && data.Less(j, j-1); j-- {
+			data.Swap(j, j-1)
+		}
+	}
+}
+
 // newKeyCursor returns a new instance of KeyCursor.
 // This function assumes the read-lock has been taken.
 func newKeyCursor(ctx context.Context, fs *FileStore, key []byte, t int64, ascending bool) *KeyCursor {
@@ -1336,9 +1353,9 @@ func newKeyCursor(ctx context.Context, fs *FileStore, key []byte, t int64, ascen
 	}
 
 	if ascending {
-		sort.Sort(ascLocations(c.seeks))
+		sortLocations(ascLocations(c.seeks))
 	} else {
-		sort.Sort(descLocations(c.seeks))
+		sortLocations(descLocations(c.seeks))
 	}
 
 	// Determine the distinct set of TSM files in use and mark then as in-use
